@@ -436,6 +436,13 @@ func c10Inbound(r *vfRun) {
 				return
 			}
 		}
+		if c.ReqMeth == "Setstat" && w.chkAttrs && (op.K == "setstat" || op.K == "fsetstat") {
+			a := q.Attrs
+			if want := sfParsed(a.Flags&waSize != 0, a.Flags&waPerm != 0, a.Flags&waUIDs != 0, a.Flags&waTimes != 0, a.Size, a.Perm, a.UID, a.GID, a.Atime, a.Mtime); c.Parsed != want && a.Flags&^15 == 0 {
+				r.fail("C10/flags-or-attrs-altered", w.method+"-"+op.K+"-parsed", "request %v: Request.Attributes() gave the handler%s, the client sent%s", q, c.Parsed, want)
+				return
+			}
+		}
 		if !w.chkAttrs && op.K != "mkdir" && op.K != "open" && (c.Flags != 0 || len(c.Attrs) != 0) {
 			// a request that carries neither flags nor attributes (STAT, FSTAT, REMOVE, RENAME, ...): the handler must not be
 			// shown any - least of all those of an earlier request
